@@ -77,6 +77,23 @@ emit("st", coroutine.status(outer), coroutine.status(inner))
 emit("r1", coroutine.resume(inner, 10))
 emit("r2", coroutine.resume(inner, 20))
 emit("st", coroutine.status(inner))`},
+	{"third_generation_outlives_first", `local C
+local A = coroutine.create(function()
+  local B = coroutine.create(function()
+    C = coroutine.create(function(a) emit("c1", a) local b = coroutine.yield(a + 1) emit("c2", b) local c = coroutine.yield(b + 1) emit("c3", c) return "done" end)
+    emit("B", coroutine.resume(C, 1))
+  end)
+  emit("A", coroutine.resume(B))
+  coroutine.yield("A-yield")
+  emit("A-ends")
+end)
+emit("r0", coroutine.resume(A))
+emit("st", coroutine.status(A), coroutine.status(C))
+emit("r1", coroutine.resume(C, 10))
+emit("rA", coroutine.resume(A))
+emit("st", coroutine.status(A), coroutine.status(C))
+emit("r2", coroutine.resume(C, 20))
+emit("st", coroutine.status(C))`},
 	{"wrap_created_in_dead_coroutine", `local gen
 local maker = coroutine.wrap(function() gen = coroutine.wrap(function() for i = 1, 4 do coroutine.yield(i) end end) return 1 end)
 emit("mk", maker())
